@@ -96,6 +96,7 @@ type Scenario struct {
 	SlowConvergeWaitSec int            `json:"slow_converge_wait_sec,omitempty"` // timer-driven convergence (sync-peer rotation): poll this long before the verdict
 	BadFirst            bool           `json:"bad_first,omitempty"`              // misbehaving nodes are the only reachable ones until they have been dealt with
 	ServeQueries        int            `json:"serve_queries,omitempty"`          // C13: after convergence the honest node asks the service this many getheaders questions over the wire
+	ReOffend            bool           `json:"re_offend,omitempty"`              // C07: at the end a host with two connections sends the forbidden header, its ban (ban_duration_ms, seconds) elapses unnoticed, the second connection offends again, and a newcomer of that host must be refused
 	DropNode0AfterSync  bool           `json:"drop_node0_after_sync,omitempty"`  // C06: node 0 drops all connections after the initial sync and stays unreachable; node 1 (a laggard that catches up) is the honest announcer from then on
 }
 
@@ -778,6 +779,9 @@ func Execute(s *Scenario, dir string) (res *Result) {
 		}
 	}
 	x.scenarioSpecificChecks("end")
+	if s.ReOffend && s.Engine == "legacy" && res.Verdict == "held" {
+		x.reOffend()
+	}
 	x.collectLocators()
 	res.Counters["messages_logged"] = x.rig.Log.Messages()
 	if os.Getenv("VERIF_SCN_ALWAYSLOG") != "" {
